@@ -4,5 +4,7 @@ CONSTANTS
   MaxContrib = 2
   Focus <- FocusAll
   DEV_NestedSupertype = TRUE
+  DEV_OwnerImportTwice = FALSE
+  DEV_OwnerNaming = TRUE
 INVARIANTS Satisfies FailsExactly
 CHECK_DEADLOCK FALSE
